@@ -41,6 +41,7 @@ type stressResult struct {
 	Subs       int64
 	Churns     int64
 	OrderKeys  int64
+	Complete   int64
 	Retained   int64
 	Inconcl    string
 }
@@ -171,6 +172,7 @@ func runStress(cfg stressCfg) *stressResult {
 	var wg sync.WaitGroup
 	stop := make(chan struct{})
 	var published int64
+	var pubTotals sync.Map // uid -> number of messages published under it
 	// ---- publishers
 	pubDone := make([]chan struct{}, cfg.Publishers)
 	for p := 0; p < cfg.Publishers; p++ {
@@ -214,6 +216,9 @@ func runStress(cfg stressCfg) *stressResult {
 					}, 30*time.Second)
 				}
 			}
+			for key, n := range seqs {
+				pubTotals.Store(stressUID(p, key[0], byte(key[1])), n)
+			}
 			want := acks
 			if err := c.WaitFor(func(l []rawclient.Event, closed bool) bool {
 				return countType(l, rc.PUBACK)+countType(l, rc.PUBCOMP) >= want
@@ -256,6 +261,9 @@ func runStress(cfg stressCfg) *stressResult {
 					w.svr.Publish(pm)
 					atomic.AddInt64(&published, 1)
 				}
+			}
+			if seq > 0 {
+				pubTotals.Store(stressUID(1000+g, 0, 0), seq)
 			}
 		}(g)
 	}
@@ -346,6 +354,7 @@ func runStress(cfg stressCfg) *stressResult {
 			continue
 		}
 		last := map[uint64]uint32{}
+		count := map[uint64]uint32{}
 		for _, e := range s.c.Log() {
 			if e.P.Type != rc.PUBLISH {
 				continue
@@ -368,8 +377,22 @@ func runStress(cfg stressCfg) *stressResult {
 				break
 			}
 			last[uid] = seq
+			count[uid]++
 		}
 		res.OrderKeys += int64(len(last))
+		// exactly once: a stable subscriber holds one matching subscription for the whole run, so every
+		// publish acknowledged to its publisher (or returned from Server.Publish) arrives exactly once
+		if !cfg.CloseServer && res.Inconcl == "" {
+			pubTotals.Range(func(k, v interface{}) bool {
+				uid, n := k.(uint64), v.(uint32)
+				if count[uid] != n || last[uid] != n {
+					res.viol("c01:exactly-once", fmt.Sprintf("%s (subscribed to st/# during the whole run): publisher %d topic %d QoS %d published %d messages, %d arrived (last sequence %d)", s.name, uid>>48, (uid>>40)&0xff, (uid>>36)&0xf, n, count[uid], last[uid]))
+					return false
+				}
+				res.Complete++
+				return true
+			})
+		}
 	}
 	if !cfg.CloseServer {
 		func() {
